@@ -12,7 +12,7 @@ from vf.core import Result
 ID = "C01"
 TITLE = "Simulated pseudopressure obeys the maximum principle and the frac-face value"
 LEVEL = "exploration"
-BUDGET = {"quick": 1600, "thorough": 40000}
+BUDGET = {"quick": 1600, "thorough": 400000}
 SHRINK = {"quick": False, "thorough": True}
 TIME_LIMIT = {"quick": 150, "thorough": 3300}
 RULE = (
